@@ -463,6 +463,7 @@ CHECKS = {
         'jobs': [
             T('MC_Req', 'Req_q04.cfg'),
             T('MC_Req', 'Req_2ctx_retry.cfg', tiers=('thorough',)),
+            T('MC_Req', 'Req_live.cfg', workers=8, tiers=('thorough',)),   # liveness under fairness: QueuedDispatched, SendReturns, NeverOrphaned (609 k states)
             T('MC_Req', 'Req_1ctx_all.cfg', tiers=('thorough',)),
             C('req', 'TestReq', 'TraceReq', n={'quick': 60, 'thorough': 1000}, env={'VERIF_REQ_MIX': 'faults'}),
             C('reqscn', 'TestReq', 'TraceReq', file='req', n={'quick': 150, 'thorough': 1500},
